@@ -289,6 +289,21 @@ func c09Breaker(c *Ctx, frozen bool, r *rand.Rand, rep int) {
 			onFx, offFx = h1, h2
 			c.Count("w3_webhook_runs", 1)
 		}
+		cbOpts := []cbreaker.Option{cbreaker.FallbackDuration(5 * time.Millisecond), cbreaker.RecoveryDuration(5 * time.Millisecond), cbreaker.CheckPeriod(time.Millisecond),
+			cbreaker.OnTripped(onFx), cbreaker.OnStandby(offFx), cbreaker.Logger(fmtLogger{}), cbreaker.Verbose(rep%2 == 1)}
+		// every third repetition the refused requests are answered by the library's redirect fallback, which appends each
+		// request's own path to its target: concurrent clients must each be sent to their own path
+		const redirectTarget = "http://standby.test/maintenance"
+		redirecting := rep%3 == 2
+		if redirecting {
+			rf, err := cbreaker.NewRedirectFallback(cbreaker.Redirect{URL: redirectTarget, PreservePath: true})
+			if err != nil {
+				c.Violation("w3/constructor", err.Error(), nil)
+				return
+			}
+			cbOpts = append(cbOpts, cbreaker.Fallback(rf))
+			c.Count("w3_redirect_fallback_runs", 1)
+		}
 		cb, err := cbreaker.New(http.HandlerFunc(func(w http.ResponseWriter, req *http.Request) {
 			k := n.Add(1)
 			if (k/200)%2 == 0 {
@@ -297,19 +312,39 @@ func c09Breaker(c *Ctx, frozen bool, r *rand.Rand, rep int) {
 				w.WriteHeader(200)
 			}
 			phase.Store(k)
-		}), "NetworkErrorRatio() > 0.5 || ResponseCodeRatio(500, 600, 0, 600) > 0.7 || LatencyAtQuantileMS(50.0) > 10000",
-			cbreaker.FallbackDuration(5*time.Millisecond), cbreaker.RecoveryDuration(5*time.Millisecond), cbreaker.CheckPeriod(time.Millisecond),
-			cbreaker.OnTripped(onFx), cbreaker.OnStandby(offFx), cbreaker.Logger(fmtLogger{}), cbreaker.Verbose(rep%2 == 1))
+		}), "NetworkErrorRatio() > 0.5 || ResponseCodeRatio(500, 600, 0, 600) > 0.7 || LatencyAtQuantileMS(50.0) > 10000", cbOpts...)
 		if err != nil {
 			c.Violation("w3/constructor", err.Error(), nil)
 			return
 		}
+		var misdirected atomic.Int64
+		var misdirectedSample atomic.Value
 		runN(16, c.N(400, 2500), func(g, k int) {
-			serveOnce(cb, "s", nil)
+			if redirecting {
+				path := sfmt("/client%d/req%d", g, k)
+				req := httptest.NewRequest("GET", "http://client.test"+path, nil)
+				rec := httptest.NewRecorder()
+				func() {
+					defer func() { _ = recover() }()
+					cb.ServeHTTP(rec, req)
+				}()
+				if rec.Code == http.StatusFound {
+					c.Count("w3_redirects_checked", 1)
+					if loc := rec.Header().Get("Location"); loc != redirectTarget+path {
+						misdirected.Add(1)
+						misdirectedSample.Store(sfmt("request %s was redirected to %q", path, loc))
+					}
+				}
+			} else {
+				serveOnce(cb, "s", nil)
+			}
 			if !frozen && k%50 == 0 {
 				time.Sleep(time.Millisecond)
 			}
 		})
+		if misdirected.Load() > 0 {
+			c.Violation("w3/redirect-misdirected", sfmt("%d refused requests answered by the breaker's redirect fallback (target %s, path preserved) were sent elsewhere, e.g. %v", misdirected.Load(), redirectTarget, misdirectedSample.Load()), nil)
+		}
 		c.Count("w3_ops", int64(16*c.N(400, 2500)))
 		c.Count("w3_trips", on.n.Load())
 		c.Count("w3_standbys", off.n.Load())
@@ -325,11 +360,22 @@ func c09RTMetrics(c *Ctx, frozen bool, r *rand.Rand, rep int) {
 		body()
 	}
 	withClockNoTicker(func() {
-		m, err := memmetrics.NewRTMetrics()
+		// every third repetition: the smallest legal windows (one histogram in the rolling window, two counter slots)
+		var mopts []memmetrics.RTOption
+		if rep%3 == 1 {
+			mopts = append(mopts,
+				memmetrics.RTHistogram(func() (*memmetrics.RollingHDRHistogram, error) {
+					return memmetrics.NewRollingHDRHistogram(1, 3600000000, 2, 10*time.Second, 1)
+				}),
+				memmetrics.RTCounter(func() (*memmetrics.RollingCounter, error) { return memmetrics.NewCounter(2, time.Second) }))
+			c.Count("w4_single_histogram_runs", 1)
+		}
+		m, err := memmetrics.NewRTMetrics(mopts...)
 		if err != nil {
+			c.Violation("w4/constructor", err.Error(), nil)
 			return
 		}
-		other, _ := memmetrics.NewRTMetrics()
+		other, _ := memmetrics.NewRTMetrics(mopts...)
 		per := c.N(400, 3000)
 		var recs, neterrs atomic.Int64
 		var perCode sync.Map
@@ -354,6 +400,7 @@ func c09RTMetrics(c *Ctx, frozen bool, r *rand.Rand, rep int) {
 			case g < 13:
 				if h, err := m.LatencyHistogram(); err == nil {
 					_ = h.LatencyAtQuantile(50)
+					_ = h.LatencyAtQuantile(99)
 				}
 			case g < 15:
 				e := m.Export()
